@@ -108,7 +108,14 @@ def judge_collection(s, docs, how, strict, tmpdir, label, allow_incomplete=True)
     wit = {'type': 'collection', 'docs': docs, 'strict': strict, 'how': how, 'allow_incomplete': allow_incomplete}
     if mc is None:
         s.hist['collection_rejected:' + type(cerr).__name__] += 1
-        if how != 'strings':
+        if K.acceptable(docs, allow_incomplete) and 'MosRoMgrException' not in [c.__name__ for c in type(cerr).__mro__]:
+            # one roCreate, one running-order ID, at most one roDelete: there is a collection to merge, and the
+            # constructor left with something that is not even the library's own refusal
+            s.evaluations += 1
+            s.custom_violation('collection-result-differs-from-sequential-fold',
+                               {'how': how, 'strict': strict, 'n_docs': len(docs), 'cannot_be_built': type(cerr).__name__,
+                                'msg': str(cerr)[:120]}, wit, status='construct')
+        elif how != 'strings':
             # the same documents through from_strings: if THAT collection exists, this one has to exist as well
             mc_s, _e = K.make_collection(s, docs, 'strings', allow_incomplete, tmpdir)
             if mc_s is not None:
@@ -207,6 +214,21 @@ def run(s):
                     kind = 'roDelete'
                 docs.append(gen.rand_message(rng, state, kind, 10 + k, ids, pool=pool,
                                              shape_weights=(0.6, 0.25, 0.12, 0.03), selfref=0.1))
+            if c % 6 == 4 and len(docs) > 2:
+                # message IDs need not be unique across types: one message carries the roCreate's ID, and a
+                # roReadyToAir (it commutes with its neighbour) carries the ID of another message
+                import re as _re
+                cid = _re.search(r'<messageID>[^<]*</messageID>', docs[0])
+                j_ = rng.randrange(1, len(docs))
+                if cid:
+                    docs[j_] = _re.sub(r'<messageID>[^<]*</messageID>', cid.group(0), docs[j_], 1)
+                partners = [d_ for d_ in docs[1:] if '<roDelete>' not in d_ and d_ is not docs[j_] and
+                            _re.search(r'<messageID>([^<]*)</messageID>', d_)]
+                if partners:
+                    pid = _re.search(r'<messageID>([^<]*)</messageID>', rng.choice(partners)).group(1)
+                    docs.append(B.msg_doc('roReadyToAir', 5).replace('<messageID>5</messageID>',
+                                                                     '<messageID>%s</messageID>' % pid))
+                s.hist['collections_with_shared_message_ids'] += 1
             if c % 7 == 3:
                 # the "roCreate" handed in is a running order that was already completed and written out
                 base = s.load(ro_txt)
